@@ -81,7 +81,32 @@ func genC15(t *rapid.T) interface{} {
 		op.V = val.Draw(t, "v")
 		switch op.Op {
 		case "newset":
-			switch rapid.IntRange(0, 5).Draw(t, "setkind") {
+			switch rapid.IntRange(0, 7).Draw(t, "setkind") {
+			case 7: // a very long set (block-wise merging, strides of 8, 16, 32)
+				op.Vals = rapid.SliceOfN(rapid.IntRange(-2, 70), 20, 50).Draw(t, "hugevals")
+			case 6: // part of an earlier set: a suffix, a prefix, every other element, one element
+				// (ties at every offset of a merge with the set it was taken from)
+				src := sets[pick(len(sets), lastSet, "partof")]
+				if len(src) == 0 {
+					op.Vals = []int{op.V}
+					break
+				}
+				at := rapid.IntRange(0, len(src)-1).Draw(t, "partat")
+				switch rapid.IntRange(0, 3).Draw(t, "parthow") {
+				case 0:
+					op.Vals = append(op.Vals, src[at:]...)
+				case 1:
+					op.Vals = append(op.Vals, src[:at+1]...)
+				case 2:
+					for j := at % 2; j < len(src); j += 2 {
+						op.Vals = append(op.Vals, src[j])
+					}
+				default:
+					op.Vals = []int{src[at]}
+					if rapid.Bool().Draw(t, "partplus") {
+						op.Vals = append(op.Vals, src[len(src)-1]+1+rapid.IntRange(0, 3).Draw(t, "partabove"))
+					}
+				}
 			case 5: // values at the edges of machine words and of small bit masks
 				op.Vals = rapid.SliceOfN(rapid.SampledFrom([]int{0, 1, 7, 8, 31, 32, 33, 62, 63, 64, 65, 127, 128, 255, 256, 65535, 65536, 1<<31 - 1, 1 << 31, 1 << 32, 1<<62 + 3, 1<<63 - 1, -1, -64, -1 << 31, -1 << 63}), 1, 6).Draw(t, "edgevals")
 			case 4: // a long set (size ratios of 4 and more against the small ones)
@@ -124,7 +149,8 @@ func genC15(t *rapid.T) interface{} {
 			lastSet = op.I
 			sets = append(sets, norm(append(append([]int{}, sets[op.I]...), sets[op.J]...)))
 		case "newmap":
-			op.Map = rapid.MapOfN(val, rapid.IntRange(0, 3), 0, 4).Draw(t, "map")
+			// (any int is a value: counters below zero and at zero are entries like all others)
+			op.Map = rapid.MapOfN(val, rapid.SampledFrom([]int{0, 1, 2, 3, 0, 1, 2, 3, -1, -1, -2, -3}), 0, 4).Draw(t, "map")
 			if rapid.IntRange(0, 4).Draw(t, "edgekeys") == 0 {
 				op.Map[rapid.SampledFrom([]int{63, 64, 65, 128, 1 << 31, 1<<63 - 1, -1 << 63}).Draw(t, "edgekey")] = 1 + rapid.IntRange(0, 2).Draw(t, "edgeval")
 			}
